@@ -108,6 +108,10 @@ func (c20) Run(c *Ctx, i int) CaseResult {
 			if r.Intn(4) == 0 {
 				p = append([]string{"nowhere"}, p...)
 			}
+			if len(p) >= 2 && r.Intn(3) == 0 {
+				// a service named twice with others in between: its FIRST occurrence is its rank
+				p = append(p, p[r.Intn(len(p)-1)])
+			}
 			in.Spec.Priorities = p
 			feats["priorities"] = true
 		}
